@@ -129,3 +129,68 @@ pub open spec fn merged_so_far<ID, C: PartialOrd>(h: Seq<(ID, MemberState<C>)>, 
     &&& forall|i: int| 0 <= i < h.len() ==> mget(next, #[trigger] h[i].0) == Some(if s2.contains_key(h[i].0) { merge_member(h[i].1, s2[h[i].0]) } else { h[i].1 })
     &&& forall|id: ID| !in_hist(h, id) ==> #[trigger] mget(next, id) == mget(s2, id)
 }
+
+// ---- C31 kernel: merge_states over a set of heads ----------------------------------------------------------------------------
+pub trait IdentityHandle: Copy + PartialEq + Eq + Hash {}
+pub trait OperationId: Copy + PartialEq + Eq + Hash {}
+#[verifier::external_body]
+#[verifier::reject_recursive_types(N)]
+#[verifier::reject_recursive_types(E)]
+pub struct DiGraphMap<N, E> { p: core::marker::PhantomData<(N, E)> }
+// the elements of the set, each exactly once, in an unspecified order (contract of `HashSet::iter`)
+pub open spec fn enumerates<T>(hs: Seq<T>, s: Set<T>) -> bool {
+    &&& hs.no_duplicates()
+    &&& forall|i: int| 0 <= i < hs.len() ==> s.contains(#[trigger] hs[i])
+    &&& forall|x: T| s.contains(x) ==> exists|i: int| 0 <= i < hs.len() && #[trigger] hs[i] == x
+}
+pub open spec fn derefs<T>(r: Seq<&T>) -> Seq<T> { Seq::new(r.len(), |i: int| *r[i]) }
+#[verifier::external_body]
+pub fn verif_hashset_ref_elems<'a, T>(s: &'a HashSet<T>) -> (r: Vec<&'a T>)
+    ensures enumerates(derefs(r@), s@)
+{ unimplemented!() }
+#[verifier::external_body]
+pub fn verif_cloned_collect<T: Clone>(s: &HashSet<T>) -> (r: Vec<T>) { unimplemented!() }
+
+pub type StatesView<ID, OP, C> = Map<OP, HashMap<ID, GroupMembersState<GroupMember<ID>, C>>>;
+// the state of member m of group g recorded at head h (None: h unknown, or g not a group there, or m never a member there)
+pub open spec fn member_at<ID: Hash + Eq, OP, C>(states: StatesView<ID, OP, C>, h: OP, g: ID, m: GroupMember<ID>) -> Option<MemberState<C>> {
+    if states.contains_key(h) && states[h]@.contains_key(g) { mget(states[h]@[g].members@, m) } else { None }
+}
+pub open spec fn group_at<ID: Hash + Eq, OP, C>(states: StatesView<ID, OP, C>, h: OP, g: ID) -> bool { states.contains_key(h) && states[h]@.contains_key(g) }
+pub open spec fn group_in<ID: Hash + Eq, OP, C>(states: StatesView<ID, OP, C>, hs: Seq<OP>, g: ID) -> bool { exists|i: int| 0 <= i < hs.len() && #[trigger] group_at(states, hs[i], g) }
+pub open spec fn join_member<C: PartialOrd>(x: Option<MemberState<C>>, acc: Option<MemberState<C>>) -> Option<MemberState<C>> {
+    match (x, acc) { (Some(x), Some(a)) => Some(merge_member(x, a)), (Some(x), None) => Some(x), (None, a) => a }
+}
+// merging the recorded states of (g, m) head by head, in the order hs
+pub open spec fn fold_member<ID: Hash + Eq, OP, C: PartialOrd>(states: StatesView<ID, OP, C>, hs: Seq<OP>, g: ID, m: GroupMember<ID>) -> Option<MemberState<C>>
+    decreases hs.len()
+{
+    if hs.len() == 0 { None } else { join_member(member_at(states, hs.last(), g, m), fold_member(states, hs.drop_last(), g, m)) }
+}
+// cur is the head-by-head merge of the states recorded at hs
+pub open spec fn merged_heads<ID: Hash + Eq, OP, C: PartialOrd>(states: StatesView<ID, OP, C>, hs: Seq<OP>, cur: Map<ID, GroupMembersState<GroupMember<ID>, C>>) -> bool {
+    &&& forall|g: ID| #[trigger] cur.contains_key(g) <==> group_in(states, hs, g)
+    &&& forall|g: ID, m: GroupMember<ID>| cur.contains_key(g) ==> mget(cur[g].members@, m) == #[trigger] fold_member(states, hs, g, m)
+}
+
+// ---- create: the listed initial members ---------------------------------------------------------------------------------------
+pub open spec fn listed<ID, C>(l: Seq<(ID, Access<C>)>, id: ID) -> bool { exists|i: int| 0 <= i < l.len() && #[trigger] l[i].0 == id }
+pub open spec fn listed_with<ID, C>(l: Seq<(ID, Access<C>)>, id: ID, a: Access<C>) -> bool { exists|i: int| 0 <= i < l.len() && #[trigger] l[i] == (id, a) }
+pub open spec fn created_from<ID, C>(m: Map<ID, MemberState<C>>, l: Seq<(ID, Access<C>)>) -> bool {
+    &&& forall|id: ID| #[trigger] m.contains_key(id) <==> listed(l, id)
+    &&& forall|id: ID| #[trigger] m.contains_key(id) ==> m[id].member_counter == 1 && m[id].access_counter == 0 && listed_with(l, id, m[id].access)
+}
+
+// ---- apply_action ------------------------------------------------------------------------------------------------------------
+impl<ID: Clone, C: Clone> Clone for GroupAction<ID, C> {
+    #[verifier::external_body]
+    fn clone(&self) -> (r: Self) ensures lawful_clone::<C>() && lawful_clone::<ID>() ==> r == *self { unimplemented!() }
+}
+impl<ID: Hash + Eq, C> Default for GroupMembersState<ID, C> {
+    #[verifier::external_body]
+    fn default() -> (r: Self) ensures r.members@ == Map::<ID, MemberState<C>>::empty() { unimplemented!() }
+}
+pub open spec fn result_state<ID: IdentityHandle, C: Conditions>(r: StateChangeResult<ID, C>) -> Map<ID, GroupMembersState<GroupMember<ID>, C>> {
+    match r { StateChangeResult::Ok { state } => state@, StateChangeResult::Error { state, .. } => state@, StateChangeResult::Filtered { state } => state@ }
+}
+pub open spec fn group_members<ID, C>(gs: Map<ID, GroupMembersState<GroupMember<ID>, C>>, g: ID) -> Map<GroupMember<ID>, MemberState<C>> where ID: Hash + Eq { gs[g].members@ }
